@@ -182,12 +182,35 @@ def cc(out, srcs, flags=(), libs=(), cxx=False, timeout=300):
 # Coq
 # ----------------------------------------------------------------------------------------------
 
-def coq_hygiene():
-    """forbidden tokens anywhere in the development (outside comments is not distinguished for
-    most tokens: we simply do not write them; Section-local Variable/Hypothesis are allowed only
-    inside a Section and are checked by looking at Section nesting)."""
+def coq_closure(vfiles):
+    """the .v files (paths relative to coq/) that the given files depend on, transitively,
+    inside the MT development (found by scanning `From MT Require ...` lines)"""
+    seen, todo = [], list(vfiles)
+    while todo:
+        f = todo.pop()
+        if f in seen or not os.path.exists(os.path.join(COQ, f)):
+            continue
+        seen.append(f)
+        txt = strip_coq_comments(open(os.path.join(COQ, f), errors="replace").read())
+        for m in re.finditer(r"From\s+MT\s+Require\s+(?:Import\s+|Export\s+)?(.*?)\.(?:\s|$)", txt, re.S):
+            for mod in m.group(1).split():
+                todo.append(mod.replace(".", "/") + ".v")
+        for m in re.finditer(r"Require\s+(?:Import\s+|Export\s+)?((?:MT\.[\w.]+\s*)+)\.(?:\s|$)", txt):
+            for mod in m.group(1).split():
+                todo.append(mod[3:].replace(".", "/") + ".v")
+    return seen
+
+
+def coq_hygiene(vfiles=None):
+    """forbidden tokens in the development (in the dependency closure of vfiles when given;
+    Section-local Variable/Hypothesis are allowed only inside a Section and are checked by
+    looking at Section nesting)."""
     bad = []
-    for root, _, files in os.walk(COQ):
+    if vfiles is not None:
+        walk = [(COQ, None, coq_closure(vfiles))]
+    else:
+        walk = os.walk(COQ)
+    for root, _, files in walk:
         for f in files:
             if not f.endswith(".v"):
                 continue
@@ -229,6 +252,7 @@ def strip_coq_comments(txt):
 def coq_make(targets, timeout=1800):
     """make the given .vo targets (paths relative to coq/); returns (ok, log)"""
     with Lock("coq"):
+        gen_coqproject()
         if not os.path.exists(os.path.join(COQ, "Makefile")) or \
                 os.path.getmtime(os.path.join(COQ, "Makefile")) < os.path.getmtime(os.path.join(COQ, "_CoqProject")):
             rc, out = sh("coq_makefile -f _CoqProject -o Makefile", cwd=COQ, timeout=120)
@@ -236,6 +260,21 @@ def coq_make(targets, timeout=1800):
                 return False, out
         rc, out = sh(["make", "-k", "-j%d" % NPROC] + list(targets), cwd=COQ, timeout=timeout)
         return rc == 0, out
+
+
+def gen_coqproject():
+    """_CoqProject lists every .v file under coq/ (regenerated when the set changes)"""
+    vs = []
+    for root, dirs, files in os.walk(COQ):
+        dirs.sort()
+        for f in sorted(files):
+            if f.endswith(".v") and not f.startswith("Extract_") and not f.startswith("."):
+                vs.append(os.path.relpath(os.path.join(root, f), COQ))
+    txt = ("-Q . MT\n-arg -w -arg -notation-overridden,-deprecated-hint-without-locality,"
+           "-deprecated-instance-without-locality\n" + "\n".join(sorted(vs)) + "\n")
+    p = os.path.join(COQ, "_CoqProject")
+    if not os.path.exists(p) or open(p).read() != txt:
+        open(p, "w").write(txt)
 
 
 def theorems_in(vfile):
@@ -416,7 +455,7 @@ class Ctx:
     # ---- proof side ----
     def prove(self, prop_file, module, targets=None, extra_theorem_files=()):
         """build Properties_Cxx.vo (and what it needs); fill obligations/discharged/assumptions."""
-        bad = coq_hygiene()
+        bad = coq_hygiene([prop_file])
         names = theorems_in(prop_file)
         stmts = theorem_statements(prop_file)
         self.cov["obligations"] = len(names)
@@ -510,8 +549,11 @@ class Ctx:
               "coverage": cov, "assumptions": (assumptions or []) + self.assumptions,
               "wall_s": round(time.time() - self.t0, 2), "violations": len(self.violations),
               "known_findings_replayed": self.known_hit, "notes": self.notes}
-        os.makedirs(os.path.join(VERIF, "evidence"), exist_ok=True)
-        with open(os.path.join(VERIF, "evidence", self.prop + ".json"), "w") as f:
+        # runs against a scratch copy of the repository (mutation experiments) must not overwrite
+        # the evidence of the real tree
+        evdir = os.path.join(VERIF, "evidence") if os.path.realpath(REPO) == "/repo" else self.dir
+        os.makedirs(evdir, exist_ok=True)
+        with open(os.path.join(evdir, self.prop + ".json"), "w") as f:
             json.dump(ev, f, indent=1, default=str)
             f.write("\n")
         for k in self.known_hit:
